@@ -14,11 +14,17 @@ Cases
       across files, a history of explicit loads (from file / from string) and the call
       `model_export_to_file(f, model, repo)` with model = one of the loaded models or None and
       repo = None / [] / a list of models / the (possibly empty) `all_models` of a model or
-      of the metamodel; through the file object, the file API or the `any -> dot` generator.
+      of the metamodel; through the file object, the file API or the `any -> dot` generator;
+      *user classes* (`classes=[...]`) for any of the generated classes with one of the Python
+      protocols of `UCLS` (`__len__`/`__iter__`, `__bool__`, `__eq__` with / without `__hash__`):
+      falsy, all-equal and unhashable objects in every position (root, value of a single-valued
+      containment / reference, item of a containment / mixed / reference list), also
+      systematically (`protocol_sweep`); falsy primitive values (0, 0.0, "", False, []).
       (cases with the older field "mode" are read as the corresponding situation.)
   kind "mm": a generated grammar (common / abstract / match rules, hostile string and
       regex matches, base types, OBJECT, references, all multiplicities) exported with
-      the DOT or the PlantUML renderer (file object, file API, generators).
+      the DOT or the PlantUML renderer (file object, file API, generators), optionally with user
+      classes for common rules.
   kind "escape": `dot_escape` / `dot_repr` on one hostile string.
   kind "args": the argument checks of `model_export_to_file` (malformed stream).
 
@@ -121,15 +127,15 @@ def gen_obj(rng, classes, ci, depth, nstr, budget):
         if k in ("name_str", "str"):
             vals[a["n"]] = rng.below(nstr)
         elif k in ("name_int", "int"):
-            vals[a["n"]] = rng.randint(0, 99999)
+            vals[a["n"]] = 0 if rng.chance(0.15) else rng.randint(0, 99999)  # 0: a falsy value that is not None
         elif k == "float":
-            vals[a["n"]] = rng.choice(["1.5", "0.25", "3e10", "12.0", "1e-7"])
+            vals[a["n"]] = rng.choice(["1.5", "0.25", "3e10", "12.0", "1e-7", "0.0"])
         elif k == "bool":
             vals[a["n"]] = True
         elif k == "strs":
             vals[a["n"]] = [rng.below(nstr) for _ in range(rng.randint(1 if a.get("plus") else 0, 4))]
         elif k == "ints":
-            vals[a["n"]] = [rng.randint(0, 999) for _ in range(rng.randint(1 if a.get("plus") else 0, 4))]
+            vals[a["n"]] = [rng.randint(0, 999) if rng.chance(0.85) else 0 for _ in range(rng.randint(1 if a.get("plus") else 0, 4))]
         elif k == "mixed":
             items = []
             for _ in range(rng.randint(1 if a.get("plus") else 0, 5)):
@@ -137,9 +143,9 @@ def gen_obj(rng, classes, ci, depth, nstr, budget):
                 if t == "s":
                     items.append({"s": rng.below(nstr)})
                 elif t == "i":
-                    items.append({"i": rng.randint(0, 999)})
+                    items.append({"i": rng.randint(0, 999) if rng.chance(0.8) else 0})
                 elif t == "f":
-                    items.append({"f": rng.choice(["1.5", "0.25", "7.0"])})
+                    items.append({"f": rng.choice(["1.5", "0.25", "7.0", "0.0"])})
                 else:
                     items.append({"o": gen_obj(rng, classes, rng.below(len(classes)), depth + 1, nstr, budget)})
             vals[a["n"]] = items
@@ -403,6 +409,56 @@ def make_falsy_class(how):
     return type("Model", (), body)
 
 
+# Python protocols a user class (`classes=[...]` of the metamodel) may define for its instances.  The
+# export has to treat such an object like any other: whether an object is part of the model is a matter
+# of `is None`, never of its truth value, its `==` or its hash.
+#   plain   an ordinary user class
+#   len     container-like: `__len__` / `__iter__` over the items of its list attributes (no items: falsy)
+#   bool    `__bool__` = its first `?=` attribute (false when not set; always false without such an attribute)
+#   eq      `__eq__`: all instances of the class are equal, `__hash__` constant
+#   unhash  `__eq__` without `__hash__`: instances are unhashable (what `@dataclass` gives)
+UCLS = ("plain", "len", "bool", "eq", "unhash")
+LIST_KINDS = ("strs", "ints", "mixed", "children", "refs")
+
+
+def make_user_class(name, how, spec):
+    """user class `name` with protocol `how` for the generated class `spec`"""
+    lists = [a["n"] for a in spec["attrs"] if a["k"] in LIST_KINDS]
+    flags = [a["n"] for a in spec["attrs"] if a["k"] == "bool"]
+
+    def init(self, parent=None, **kw):
+        self.parent = parent
+        for k, v in kw.items():
+            setattr(self, k, v)
+
+    def items(self):
+        out = []
+        for n in lists:
+            out += getattr(self, n, None) or []
+        return out
+
+    body = {"__init__": init}
+    if how == "len":
+        body["__len__"] = lambda self: len(items(self))
+        body["__iter__"] = lambda self: iter(items(self))
+    elif how == "bool":
+        body["__bool__"] = lambda self: bool(flags and getattr(self, flags[0], False))
+    elif how in ("eq", "unhash"):
+        body["__eq__"] = lambda self, other: type(other) is type(self)
+        body["__hash__"] = (lambda self: 0) if how == "eq" else None
+    elif how != "plain":
+        raise ValueError("unknown user class protocol")
+    return type(name, (), body)
+
+
+def gen_user_classes(rng, classes):
+    """a protocol (or None = the class textX creates) for every generated class"""
+    if not rng.chance(0.55):
+        return None
+    u = [rng.weighted([(None, 3), ("plain", 1), ("len", 3), ("bool", 3), ("eq", 1), ("unhash", 1)]) for _ in classes]
+    return u if any(u) else None
+
+
 def normalize_case(case):
     """cases written before the repository situations existed carry a "mode" """
     if "call" in case:
@@ -485,6 +541,9 @@ def valid_case(case):
     if any(not (0 <= k < len(loads)) for k in ks):
         return False
     if case.get("falsy") not in (None, "len", "bool") or (case.get("falsy") and not is_wrapped(case)):
+        return False
+    u = case.get("ucls")
+    if u is not None and (not isinstance(u, list) or len(u) != len(classes) or any(x is not None and x not in UCLS for x in u)):
         return False
     if call["via"] == "generator" and (call["model"] is None or r is not None or loads[call["model"]]["how"] != "file"):
         return False  # the generator derives the output file name from the file name of the model
@@ -574,9 +633,9 @@ def gen_model_case(rng):
             if t == "str":
                 strings.append({"t": "str", "v": hostile(rng)})
             elif t == "int":
-                strings.append({"t": "int", "v": rng.randint(0, 9999)})
+                strings.append({"t": "int", "v": rng.choice([0, rng.randint(0, 9999)])})
             elif t == "float":
-                strings.append({"t": "float", "v": rng.choice(["2.5", "1e+20", "0.1"])})
+                strings.append({"t": "float", "v": rng.choice(["2.5", "1e+20", "0.1", "0.0"])})
             elif t == "bool":
                 strings.append({"t": "bool", "v": rng.chance(0.5)})
             else:
@@ -603,9 +662,15 @@ def gen_model_case(rng):
             files.append({"fname": fn, "root": root})
         if not ok:
             continue
+        ucls = gen_user_classes(rng, classes)
         if legacy:
-            return {"kind": "model", "mode": mode, "classes": classes, "strings": strings, "files": files}
+            case = {"kind": "model", "mode": mode, "classes": classes, "strings": strings, "files": files}
+            if ucls:
+                case["ucls"] = ucls
+            return case
         case = {"kind": "model", "classes": classes, "strings": strings, "files": files}
+        if ucls:
+            case["ucls"] = ucls
         case.update(gen_situation(rng, nfiles, files))
         assign_cross_refs(rng, case)
         if valid_case(case):
@@ -673,7 +738,13 @@ def gen_mm_case(rng):
     if renderer == "puml" and via == "tofile_default":
         via = "tofile"
     lt = rng.choice([None, None, "ortho", "polyline"]) if renderer == "puml" else None
-    return {"kind": "mm", "rules": rules, "renderer": renderer, "via": via, "linetype": lt}
+    case = {"kind": "mm", "rules": rules, "renderer": renderer, "via": via, "linetype": lt}
+    if rng.chance(0.4):
+        # user classes (`classes=[...]`) for some of the common rules: the exported class objects are the user's
+        ucls = [r["name"] for r in rules if r["t"] == "common" and r["attrs"] and rng.chance(0.5)]
+        if ucls:
+            case["ucls"] = ucls
+    return case
 
 
 def gstr(s):
@@ -760,6 +831,11 @@ def dump_graph(roots):
         k += 1
         cls = o.__class__
         d = {"id": idmap[id(o)], "cls": cls.__name__, "attrs": None}
+        try:
+            if not o:
+                d["falsy"] = True  # for the evidence / the non-triviality rule only
+        except Exception:
+            pass
         if hasattr(cls, "_tx_attrs"):
             d["attrs"] = []
             for name, a in cls._tx_attrs.items():
@@ -808,6 +884,9 @@ def run_model_case(case, tmp):
     prov = case["prov"]
     wrap = is_wrapped(case)
     user_classes = [make_falsy_class(case["falsy"])] if case.get("falsy") else []
+    for ci, how in enumerate(case.get("ucls") or []):
+        if how:
+            user_classes.append(make_user_class(f"C{ci}", how, classes[ci]))
     mm = metamodel_from_str(grammar_text(classes, wrap, has_imports(case)), classes=user_classes,
                             global_repository=bool(case["mm_global"]))
 
@@ -922,13 +1001,17 @@ def run_mm_case(case, tmp):
 
     gtext = mm_grammar_text(case)
     via = case["via"]
+    common = {r["name"] for r in case["rules"] if r["t"] == "common" and r["attrs"]}
+    if any(n not in common for n in case.get("ucls") or []):
+        raise ValueError("malformed metamodel case: user class for a rule that is not a common rule")
+    user_classes = [make_user_class(n, "plain", {"attrs": []}) for n in case.get("ucls") or []]
     if via in ("generator", "fileapi"):
         gpath = os.path.join(tmp, "gram.tx")
         with open(gpath, "w", encoding="utf-8") as fh:
             fh.write(gtext)
-        mm = metamodel_from_file(gpath)
+        mm = metamodel_from_file(gpath, classes=user_classes)
     else:
-        mm = metamodel_from_str(gtext)
+        mm = metamodel_from_str(gtext, classes=user_classes)
     captured = []
     orig = ex.get_unified_classes
 
@@ -1049,10 +1132,96 @@ def situation_sweep():
                     if valid_case(c):
                         out.append(c)
                     if call is calls[0] and not mm_global and hist in ("Astr", "Afile"):
-                        c = dict(copy.deepcopy(c), wrapper=True, falsy="len" if hist == "Astr" else "bool")
-                        if valid_case(c):
-                            out.append(c)
+                        c2 = dict(copy.deepcopy(c), wrapper=True, falsy="len" if hist == "Astr" else "bool")
+                        if valid_case(c2):
+                            out.append(c2)
+                    if call is calls[0]:
+                        # the root objects are instances of a user class and all compare equal (hashable or
+                        # not): model A must not be taken for model B anywhere
+                        for how in ("eq", "unhash"):
+                            c2 = dict(copy.deepcopy(c), ucls=[how])
+                            if valid_case(c2):
+                                out.append(c2)
     return out
+
+
+def protocol_sweep():
+    """A small systematic sweep (runs on every seed): every user class protocol of `UCLS` x every position
+    an object can take in a model — value of a mandatory / optional single-valued containment, of a
+    single-valued reference, item of a containment list, of a mixed list, of a reference list, model root.
+    The object in that position is "empty" (no list items, flag not set: falsy for `len` / `bool`) and has
+    a child that can only be reached through it."""
+    classes = [
+        {"attrs": [{"n": "name", "k": "name_str", "opt": False},
+                   {"n": "a1", "k": "child", "opt": False, "c": 1},
+                   {"n": "a2", "k": "child", "opt": True, "c": 1},
+                   {"n": "a3", "k": "ref", "opt": True, "c": 1},
+                   {"n": "a4", "k": "children", "opt": True, "plus": False, "c": 1},
+                   {"n": "a5", "k": "mixed", "opt": True, "plus": False},
+                   {"n": "a6", "k": "refs", "opt": True, "plus": False, "c": 1}]},
+        {"attrs": [{"n": "name", "k": "name_str", "opt": True},
+                   {"n": "a1", "k": "bool", "opt": True},
+                   {"n": "a2", "k": "ints", "opt": True, "plus": False},
+                   {"n": "a3", "k": "child", "opt": True, "c": 1}]}]
+
+    def full():
+        return {"c": 1, "vals": {"name": 0, "a1": True, "a2": [1]}}
+
+    def empty():
+        return {"c": 1, "vals": {"a3": full()}}
+
+    out = []
+    for how in UCLS:
+        for pos in ("child", "optchild", "children", "mixed", "ref", "refs", "root"):
+            e = empty()
+            vals = {"name": 0, "a1": full()}
+            if pos in ("child", "root"):
+                vals["a1"] = e
+            elif pos == "optchild":
+                vals["a2"] = e
+            elif pos == "children":
+                vals["a4"] = [full(), e]
+            elif pos == "mixed":
+                vals["a5"] = [{"i": 1}, {"o": e}, {"s": 0}]
+            else:
+                vals["a4"] = [e]
+            root = {"c": 0, "vals": vals}
+            if pos in ("ref", "refs"):
+                k = next(i for i, o in enumerate(preorder(classes, root, [])) if o is e)
+                if pos == "ref":
+                    vals["a3"] = k
+                else:
+                    vals["a6"] = [1, k]
+            c = {"kind": "model", "classes": copy.deepcopy(classes), "strings": [{"t": "str", "v": "n"}],
+                 "files": [{"fname": "m", "root": root}], "ucls": [how if pos == "root" else None, how],
+                 "prov": "own", "mm_global": False, "reg": [], "loads": [{"f": 0, "how": "str"}],
+                 "call": {"model": 0, "repo": None, "via": "tofile"}, "sweep": f"protocol:{how}:{pos}"}
+            if valid_case(c):
+                out.append(c)
+    return out
+
+
+def falsy_positions(obs):
+    """where the falsy objects of the exported graph sit (for the evidence)"""
+    objs = obs.get("objs")
+    if not isinstance(objs, list):
+        return []
+    falsy = {o["id"] for o in objs if o.get("falsy")}
+    if not falsy:
+        return []
+    out = set()
+    a = obs.get("args") or {}
+    if a.get("model") in falsy or any(m["id"] in falsy for m in (a.get("repo") or [])):
+        out.add("root")
+    for o in objs:
+        for at in o["attrs"] or []:
+            v = at["val"]
+            many = isinstance(v, list)
+            for x in (v if many else [v]):
+                if isinstance(x, dict) and x.get("o") in falsy:
+                    out.add(("item of a " if many else "value of a single-valued ")
+                            + ("containment" if at["cont"] else "reference") + (" list" if many else ""))
+    return sorted(out)
 
 
 def situation_label(obs):
@@ -1139,6 +1308,14 @@ def shrink_model(case):
         yield dict(case, reg=[x for x in case["reg"] if x != j])
     if case.get("mm_global"):
         yield dict(case, mm_global=False)
+    u = case.get("ucls")
+    if u and not any(u):
+        yield {k: v for k, v in case.items() if k != "ucls"}
+    for i, how in enumerate(u or []):
+        if how:
+            yield dict(case, ucls=u[:i] + [None] + u[i + 1:])
+            if how != "plain":
+                yield dict(case, ucls=u[:i] + ["plain"] + u[i + 1:])
     if case.get("falsy"):
         yield dict(case, falsy=None)
     elif case.get("wrapper"):
@@ -1191,11 +1368,14 @@ class Prop(Check):
     PROCS_THOROUGH = 4
     RULE = ("non-trivial = a string containing one of \" \\ { } | < > newline reaches an escaped hole of the export "
             "(object name, attribute value, list item, file name, match-rule body) or dot_repr truncates, or the call of "
-            "the model export is not the plain one (a repo argument is given or the model carries a repository)")
+            "the model export is not the plain one (a repo argument is given or the model carries a repository), or an "
+            "object of the exported graph is falsy (instance of a user class with __len__ / __bool__)")
     MODELLED = ("regenerated each run (tie T): dot_escape replace chain, dot_repr limit/delimiters, HEADER "
                 "(Gen/DotExport.lean); hand-modelled (tie X, exact text): model_export_to_file incl. the argument checks and the "
                 "choice of the exported models from model / repo / model._tx_model_repository.all_models (planArgs; the "
                 "three are dumped from the live objects before the call), _export recursion, processed set, subgraph handling; metamodel_export_tofile with DotRenderer and PlantUmlRenderer; "
+                "an object has no truth value, equality or hash in the model — the code consults only `is None`, id() and type() — "
+                "and the exact text comparison exposes any dependence on them (user classes with __len__ / __bool__ / __eq__ are generated); "
                 "inputs taken as data: _tx_attrs meta data, attribute values, id(), get_children, get_unified_classes, "
                 "dot_match_str, html.escape (modelled, checked by the text comparison); not exhibited: file-system "
                 "errors, set iteration order of PlantUML legend rows (compared sorted)")
@@ -1204,6 +1384,8 @@ class Prop(Check):
         "Graphviz >= 2.30 scanner: a backslash inside a quoted string protects the next character",
         "record-label grammar as in Graphviz lib/common/shapes.c parse_reclbl",
         "str() of int / float / bool contains no character that is special in DOT strings or record labels",
+        "user classes keep the name of their rule and accept the attributes as keyword arguments (textX contract); a user class "
+        "that subclasses a primitive type (str, int, ...) or a list is not generated",
         "repo is None or a sized iterable of models (list, ModelRepository); an empty iterator (truthy) is not generated",
         "the `any -> dot` generator is called with models loaded from a file (it derives the output name from the file name)",
     ]
@@ -1216,6 +1398,7 @@ class Prop(Check):
     # ---------------------------------------------------------------- cases
     def gen(self, rng, n, tier):
         yield from situation_sweep()
+        yield from protocol_sweep()
         for i in range(n):
             r = i % 10
             if r < 5:
@@ -1441,7 +1624,7 @@ class Prop(Check):
                 vals.append(m["fname"])
             # ... or the call is not the plain `model_export(model)` of a model without repository
             return (any(ch in SPECIAL for v in vals for ch in v) or any(len(v) > 20 for v in vals)
-                    or a["repo"] is not None or a["own"] is not None)
+                    or a["repo"] is not None or a["own"] is not None or any(o.get("falsy") for o in obs["objs"]))
         if k == "mm":
             return any(ch in SPECIAL for c in obs["classes"] for ch in c["match_str"])
         return False
@@ -1471,11 +1654,13 @@ class Prop(Check):
                             for c in (a["s"][1:], a["s"][:-1]):
                                 if not c.endswith("\\"):
                                     yield dict(case, rules=rules[:i] + [dict(r, alts=r["alts"][:j] + [{"s": c}] + r["alts"][j + 1:])] + rules[i + 1:])
-                if r["t"] == "common" and r["attrs"]:
+                if r["t"] == "common" and len(r["attrs"]) > (1 if r["name"] in (case.get("ucls") or []) else 0):
                     for j in range(len(r["attrs"])):
                         yield dict(case, rules=rules[:i] + [dict(r, attrs=r["attrs"][:j] + r["attrs"][j + 1:])] + rules[i + 1:])
             if case["via"] != "tofile":
                 yield dict(case, via="tofile")
+            for n in case.get("ucls") or []:
+                yield dict(case, ucls=[x for x in case["ucls"] if x != n])
 
     def extra_search(self, rng, tier, broken):
         out = []
@@ -1514,14 +1699,23 @@ class Prop(Check):
     def extra_evidence(self, cases, obs, model_outs):
         kinds = {}
         situations = {}
+        protocols = {}
+        positions = {}
         for c, o in zip(cases, obs):
+            if c["kind"] == "model" and isinstance(o, dict):
+                for how in set(c.get("ucls") or []) | ({"root-" + c["falsy"]} if c.get("falsy") else set()):
+                    if how:
+                        protocols[how] = protocols.get(how, 0) + 1
+                for pos in falsy_positions(o):
+                    positions[pos] = positions.get(pos, 0) + 1
             key = c["kind"] + (":" + c.get("mode", c.get("renderer", c.get("prov", ""))) if c["kind"] in ("model", "mm") else "")
             kinds[key] = kinds.get(key, 0) + 1
             if c["kind"] == "model" and isinstance(o, dict):
                 key = situation_label(o) + " -> " + str(o.get("outcome"))
                 situations[key] = situations.get(key, 0) + 1
         gv = graphviz_crosscheck(cases, obs, limit=8 if len(cases) < 2000 else 60)
-        return {"distribution": kinds, "call_situations": situations, "graphviz_crosscheck": gv}
+        return {"distribution": kinds, "call_situations": situations, "user_class_protocols": protocols,
+                "falsy_object_positions": positions, "graphviz_crosscheck": gv}
 
 
 def graphviz_crosscheck(cases, obs, limit):
